@@ -95,6 +95,7 @@ def gen_module(rng, n, names, ctx_choice, penv, pc, pu, focus):
                                  ([n + "_gen2.h"] if pick(rng, 0.2) else [])} if pick(rng, 0.9) else {})}
         if pick(rng, 0.7): m["is_build_dep"] = True
         if pick(rng, 0.5): m["sources"] = [n + ".tmpl"]
+        if pick(rng, 0.1): m["download"] = {"git": {"url": "https://example.org/%s.git" % n, "commit": "beef%d" % rng.randint(0, 9)}}
     else:
         if pick(rng, 0.8):
             srcs = [n + ".c"] + (["x%d.c" % rng.randint(0, 2)] if pick(rng, 0.3) else []) + ([n + ".S"] if pick(rng, 0.1) else [])
